@@ -1,2 +1,6 @@
 //! Compiled (derive-macro) declarations. The list is produced by `vgen` into `generated.rs`.
-include!("generated.rs");
+#[allow(unused_variables, non_camel_case_types, dead_code, clippy::all)]
+mod generated {
+    include!("generated.rs");
+}
+pub use generated::*;
